@@ -164,8 +164,16 @@ TB_RULES = [(r"auto astate = state->as<StateType>\(\);", "", 0), (r"auto &&svc =
             (r"AtlasChart \*chart = getChart\(astate, true\);", "int chart = GET_CHART();", 0), (r"chart->psiInverse\(\*astate, u\);", "PSI_INVERSE();", 0), (r"chart->psi\(u, \*astate\)", "PSI()", 0), (r"svc->isValid\(state\)", "IS_VALID()", 0)]
 UNITS.append(dict(name="c16_tangentbundle_project", template="C16/tb_project.c", mode="plain", entry="h_tb_project", flags=["--bounds-check", "--pointer-check", "--unsigned-overflow-check"], level="proof", backend="minisat", timeout=300,
                   functions=["ompl::base::TangentBundleStateSpace::project"],
-                  sources=[dict(name="tb_project", file=TBF, sig=r"bool ompl::base::TangentBundleStateSpace::project\(State \*state\) const", rules=TB_RULES, loops={})],
+                  needs=["tb_project"], sources=[dict(name="tb_project", file=TBF, sig=r"bool ompl::base::TangentBundleStateSpace::project\(State \*state\) const", rules=TB_RULES, loops={}),
+                           dict(name="tb_geodesicInterpolate", file=TBF, sig=r"ompl::base::State \*ompl::base::TangentBundleStateSpace::geodesicInterpolate\(const std::vector<State \*> &geodesic,\s*const double t\) const", rules=[(r"auto state = ConstrainedStateSpace::geodesicInterpolate\(geodesic, t\)->as<StateType>\(\);", "int state = BASE_GEODESIC_INTERPOLATE();", 0), (r"!project\(state\)", "!TB_PROJECT(state)", 0), (r"geodesic\[0\]", "GEO0", 0)], loops={})],
                   canaries=[dict(name="convergence_verdict_dropped", where="body:tb_project", rx=r"if \(PSI\(\)\s*&& IS_VALID\(\)\)\s*return true;\s*return false;", repl="PSI(); return IS_VALID();")]))
+
+TBI_RULES = [(r"auto state = ConstrainedStateSpace::geodesicInterpolate\(geodesic, t\)->as<StateType>\(\);", "int state = BASE_GEODESIC_INTERPOLATE();", 0), (r"!project\(state\)", "!TB_PROJECT(state)", 0), (r"geodesic\[0\]", "GEO0", 0)]
+UNITS.append(dict(name="c16_tangentbundle_geodesicInterpolate", template="C16/tb_project.c", mode="plain", entry="h_tb_interpolate", flags=["--bounds-check", "--pointer-check", "--unsigned-overflow-check"], level="proof", backend="minisat", timeout=300,
+                  functions=["ompl::base::TangentBundleStateSpace::geodesicInterpolate"], needs=["tb_geodesicInterpolate"],
+                  sources=[dict(name="tb_project", file=TBF, sig=r"bool ompl::base::TangentBundleStateSpace::project\(State \*state\) const", rules=TB_RULES, loops={}),
+                           dict(name="tb_geodesicInterpolate", file=TBF, sig=r"ompl::base::State \*ompl::base::TangentBundleStateSpace::geodesicInterpolate\(const std::vector<State \*> &geodesic,\s*const double t\) const", rules=TBI_RULES, loops={})],
+                  canaries=[dict(name="unprojected_state_returned", where="body:tb_geodesicInterpolate", rx=r"return GEO0;", repl="return state;")]))
 
 CONH = "src/ompl/base/Constraint.h"
 CI_RULES = [(r"for \(const auto &constraint : constraints_\)\s*\{", "for (unsigned constraint = 0; constraint < ncons; ++constraint) {", 0),
